@@ -59,8 +59,11 @@ func (b *CslgBox) Type() string {
 
 // Size - calculated size of box
 func (b *CslgBox) Size() uint64 {
-	// full Box + 5 * 4 + version * 5*4
-	return uint64(boxHeaderSize + 4 + 20 + 20*b.Version)
+	// full Box + 5 * 4 + 5 * 4 more for 64-bit values (all versions but 0, as in decode and encode)
+	if b.Version == 0 {
+		return uint64(boxHeaderSize + 4 + 20)
+	}
+	return uint64(boxHeaderSize + 4 + 40)
 }
 
 // Encode - write box to w
